@@ -22,31 +22,47 @@ def main():
     runs = None
     if "--runs" in args:
         i = args.index("--runs"); runs = args[i + 1]; del args[i:i + 2]
+    wt_mode = "--worktree" in args
+    if wt_mode:
+        args.remove("--worktree")
     ids = args or sorted(d for d in os.listdir(os.path.join(VERIF, "seeded"))
                          if os.path.exists(os.path.join(VERIF, "seeded", d, "patch.diff")))
-    if sh(f"git -C {REPO} status --porcelain --untracked-files=no").stdout.strip():
+    if not wt_mode and sh(f"git -C {REPO} status --porcelain --untracked-files=no").stdout.strip():
         print("refusing: /repo has uncommitted changes"); return 2
     summary = []
     for mid in ids:
         d = os.path.join(VERIF, "seeded", mid)
         meta = json.load(open(os.path.join(d, "meta.json")))
         props = meta["property"] if isinstance(meta["property"], list) else [meta["property"]]
-        ap = sh(f"git -C {REPO} apply {d}/patch.diff")
+        if wt_mode:
+            # development mode: a scratch worktree instead of /repo itself, so that several can run side by side
+            target = f"/tmp/mw-{mid}"
+            sh(f"git -C {REPO} worktree remove --force {target}")
+            sh(f"git -C {REPO} worktree add --detach {target} HEAD")
+            ap = sh(f"git -C {target} apply {d}/patch.diff")
+            prefix = f"VERIF_REPO={target} "
+        else:
+            target = REPO
+            ap = sh(f"git -C {REPO} apply {d}/patch.diff")
+            prefix = ""
         if ap.returncode != 0:
             print(f"{mid}: patch does not apply: {ap.stderr.strip()[:200]}"); summary.append((mid, "no-apply")); continue
-        res = {"id": mid, "checks": []}
+        res = {"id": mid, "checks": [], "mode": "scratch worktree" if wt_mode else "/repo"}
         try:
             for p in props:
                 t0 = time.time()
-                cmd = f"cd {VERIF} && ./check {p} --tier quick --no-evidence" + (f" --runs {runs}" if runs else "")
+                cmd = f"cd {VERIF} && {prefix}./check {p} --tier quick --no-evidence" + (f" --runs {runs}" if runs else "")
                 r = sh(cmd, timeout=3600)
                 sigs = [l.strip().split("signature: ")[1] for l in r.stdout.splitlines() if "signature: " in l]
                 more = [l.strip() for l in r.stdout.splitlines() if l.strip().startswith("(+")]
                 res["checks"].append({"property": p, "exit": r.returncode, "signatures": sigs, "more": more,
                                       "wall_s": round(time.time() - t0), "tail": r.stdout.splitlines()[-1:]})
-                print(f"{mid}: {p} exit {r.returncode} {sigs} {more} ({time.time() - t0:.0f}s)")
+                print(f"{mid}: {p} exit {r.returncode} {sigs} {more} ({time.time() - t0:.0f}s)", flush=True)
         finally:
-            sh(f"git -C {REPO} checkout -- .")
+            if wt_mode:
+                sh(f"git -C {REPO} worktree remove --force {target}")
+            else:
+                sh(f"git -C {REPO} checkout -- .")
         res["detected"] = any(c["exit"] == 1 for c in res["checks"])
         json.dump(res, open(os.path.join(d, "result.json"), "w"), indent=1)
         summary.append((mid, "DETECTED" if res["detected"] else "missed"))
